@@ -1,7 +1,8 @@
 """C04 — bounded stand-in over program texts (see runtime/h_pipeline.py); contracts on the pipeline functions are added below as they are discharged."""
 ID = "C04"
 LEVEL = "exploration"
-FUNCTIONS = []
+FUNCTIONS = ['codelimit.common.Scanner:scan_file', 'codelimit.common.source_utils:filter_tokens', 'codelimit.common.source_utils:filter_nocl_comment_tokens']
+BOUNDED_BUDGET = 300
 TRUSTED = ["Pygments lexers (exercised, not verified)", "the canonical-program generator's expected values (computed from the derivation)"]
 ASSUMPTIONS = []
 BOUND = 'every 8th canonical program per language x 14 random (line boundary, comment style | blank | spaces) insertions + trailing comments on every line + trailing spaces + 3 simultaneous insertions'
